@@ -374,11 +374,12 @@ def build_and_run_twin(unit, chk, inputs, workdir, native_slices=None, obligatio
 
 
 def make_replay(prop, unit, chk, res, violation, rep, scratch):
-    os.makedirs(os.path.join(VERIF, 'replay'), exist_ok=True)
+    rdir = os.environ.get('VP_REPLAY_DIR') or os.path.join(VERIF, 'replay')
+    os.makedirs(rdir, exist_ok=True)
     obl = violation.get('property', 'unknown')
     inputs = inputs_from_trace(violation.get('trace'))
     safe = re.sub(r'[^A-Za-z0-9_.-]', '_', '%s-%s-%s-%s' % (prop, unit.name, res['check'], obl))
-    path = os.path.join(VERIF, 'replay', safe + '.json')
+    path = os.path.join(rdir, safe + '.json')
     names = {}
     sh_h = os.path.join(unit.dir, 'shared.h')
     if os.path.exists(sh_h):
